@@ -73,6 +73,28 @@ def strategy(tier):
     return _case()
 
 
+def sweeps(tier):
+    """Long-lived clients: some hundred transactions on one client object, each answered by a conformant peer, with a stale frame
+    now and then (counters, caches and id bookkeeping that only go wrong after many calls)."""
+    n = 700 if tier == 'thorough' else 300
+    cases = []
+    for client in CLIENTS:
+        txs = []
+        for i in range(n):
+            fc = (3, 1, 4, 6, 16)[i % 5]
+            if fc in (3, 4):
+                k, f = 'req:%d' % fc, {'address': i % 200, 'quantity': 1 + i % 9}
+            elif fc == 1:
+                k, f = 'req:1', {'address': i % 200, 'quantity': 1 + i % 33}
+            elif fc == 6:
+                k, f = 'req:6', {'address': i % 200, 'value': (i * 257) & 0xFFFF}
+            else:
+                k, f = 'req:16', {'address': i % 200, 'registers': [(i + j) & 0xFFFF for j in range(1 + i % 4)]}
+            txs.append({'kind': k, 'fields': f, 'unit': 1 + i % 5, 'script': ['other_tid', 'reply'] if i % 97 == 50 and client == 'tcp' else ['reply']})
+        cases.append({'client': client, 'tid_start': 65300 if client == 'tcp' else 0, 'txs': txs})
+    return [('long-lived-client-%d-transactions' % n, cases, False)]
+
+
 class ScriptPeer(transports.Peer):
     def __init__(self, framing):
         transports.Peer.__init__(self)
